@@ -832,10 +832,15 @@ func (x *Exec) builtin(fr *Frame, st *State, b *ssa.Builtin, cc *ssa.CallCommon,
 			x.te.SortOf(cc.Args[0].Type())
 			return Val{T: sliceLen(a.T), Typ: intT}
 		case *types.Basic:
+			// an existing string fits in memory (same limit as the slices' range fact)
+			st.assume(Le(x.te.StrLen(a.T), Term{"281474976710656", "Int"}))
 			return Val{T: x.te.StrLen(a.T), Typ: intT}
 		case *types.Map:
 			x.mapLockCheck(st, a, "read")
-			return Val{T: Ite(Eq(a.T, IntLit(0)), IntLit(0), x.mapLen(st, a.T, u)), Typ: intT}
+			ml := Ite(Eq(a.T, IntLit(0)), IntLit(0), x.mapLen(st, a.T, u))
+			// an existing map fits in memory
+			st.assume(Le(ml, Term{"281474976710656", "Int"}))
+			return Val{T: ml, Typ: intT}
 		case *types.Array:
 			return Val{T: IntLit(u.Len()), Typ: intT}
 		case *types.Pointer:
